@@ -13,7 +13,7 @@ P = {
          "Each encoder result is checked against the interval the published OETF allows within half a table step and half a code, clipping and monotonicity are checked along ascending float32 sequences; thorough enumerates every float32 bit pattern in [0,1] per encoder.",
          "Trusted: refcolor OETFs; the analytic float32 rounding slack documented in DESIGN.md.", "DESIGN.md §3 C02"),
  "C03": ("exploration", "reference-model monitor: matrices probed through the public API vs float64 derivation from declared and published chromaticities; lattice round trips",
-         "Coefficients recovered by probing unit vectors are compared with a Gauss-Jordan derivation from the declared primaries/white (which are compared with published values); linearity and inversion are then observed on lattices and random out-of-range triples.",
+         "Coefficients recovered by probing unit vectors are compared with a Gauss-Jordan derivation from the declared primaries/white (which are compared with published values); linearity and inversion are then observed on lattices, random out-of-range triples, call sequences on one function at a time, and 2^24 (thorough 2^31 + 2^16) conversions of distinct colours per space and direction in one process; the numeric properties are observed once more in a GOARCH=386 build of the monitor.",
          "Trusted: published chromaticities transcribed in refcolor.", "DESIGN.md §3 C03"),
  "C04": ("exploration", "reference-model monitor: documented pixel pipeline vs independent float64 colorimetric pipeline with the encoder's interval law",
          "Every ordered pair of spaces, lattices/greys/gamut edges/random pixels (all 2^24 RGB per pair in thorough) through the README pipeline, compared per channel with the code interval allowed around the float64 reference; alpha identity; clip-not-wrap.",
@@ -25,7 +25,7 @@ P = {
          "Profiles of boundary sizes are embedded per format specification, in every chunk order up to 5, with each damage class; the accessor's bytes/error are compared with the embedded bytes.",
          "Trusted: generators; compress/zlib for building iCCP streams.", "DESIGN.md §3 C06"),
  "C07": ("fault_enumeration", "boundary monitor on the source io.Reader: every prefix length and every injected-error position of each seed, stream read-out compared with bytes actually delivered",
-         "For each seed every truncation point and every I/O error position is enumerated under several segmentations; the monitored source knows what it delivered, the returned stream must replay exactly that and then the terminal condition.",
+         "For each seed every truncation point and every I/O error position is enumerated under several segmentations; the monitored source knows what it delivered, the returned stream must replay exactly that and then the terminal condition; a child process loads inputs at the limits of the formats under a three-minute bound (no answer = a loader that did not return).",
          "Trusted: the monitored reader; faults enter only through the io.Reader.", "DESIGN.md §3 C07"),
  "C08": ("exploration", "differential monitor: same bytes under many io.Reader delivery schedules must give identical outcomes",
          "Each input is loaded under all-at-once and under fixed/random/short/data+EOF schedules (and bufio/short-count readers for the ICC reader); success, metadata, ICC bytes, header fields, tags and description must agree; so must what a caller still holds of one load's profile bytes after further loads, and each of three successive ReadProfile calls on one reader.",
@@ -61,7 +61,7 @@ P = {
          "Files with lazily generated pixel payloads up to 64 MiB are loaded through a counting source that offers unlimited data per Read; pulled bytes must stay within 64 KiB of the needed end, and the truncated file must load identically.",
          "Trusted: generator offsets.", "DESIGN.md §3 C18"),
  "C19": ("exploration", "differential monitor: autometa.Load vs first succeeding specific loader on identical bytes, incl. polyglots; stream replay",
-         "Valid, truncated, mutated and polyglot inputs: the auto loader's outcome must equal that of the first of png/jpeg/webp that succeeds, and its stream must replay the input.",
+         "Valid, truncated, mutated and polyglot inputs: the auto loader's outcome must equal that of the first of png/jpeg/webp that succeeds, and its stream must replay the input; sources also fail for good or temporarily part-way, are misnamed files, or pipes that deliver their last bytes seconds after Load has returned.",
          "Trusted: none beyond the specific loaders as reference.", "DESIGN.md §3 C19"),
  "C20": ("exploration", "reference-model monitor: independent Gauss-Jordan/naive float64 algebra vs library on published spaces, random triangles and matrices; panic observation on exactly singular inputs",
          "Generated matrices are compared with an independent derivation; inverse/product/transpose with naive implementations scaled by condition number; exactly singular inputs must panic.",
